@@ -3,7 +3,7 @@
 cd "$(dirname "$0")/.."
 rc=0
 for p in $(python3 -c "import json;print(' '.join(c['property_id'] for c in json.load(open('MANIFEST.json'))['checks']))"); do
-  timeout 1800 python3-vt check.py $p "$@" 2>&1 | grep -v "cannot be used in patterns" | tail -4
+  timeout 1800 python3-vt check.py $p "$@" 2>&1 | grep -v "cannot be used in patterns" | grep -v "^LOST-OBLIGATION" | tail -4
   r=${PIPESTATUS[0]}; [ $r -ne 0 ] && rc=$r
 done
 exit $rc
